@@ -132,6 +132,17 @@ def split_shards(cases, size_of, target):
     return shards
 
 
+def heavy_first(shards, cases):
+    """(first, rest): shards that hold a scale / large case (a fixed list of hand-picked inputs on a big board: few
+    evaluations, each of them slow) are started first so that they do not form the tail of the run."""
+    first, rest = [], []
+    for sh in shards:
+        lo, hi = sh[0], sh[1]
+        big = any(("patterns" in c or "partitions" in c or "labelings" in c or c.get("family")) for c in cases[lo:hi])
+        (first if big else rest).append(sh)
+    return first, rest
+
+
 class GraphConfig(object):
     """Context manager setting cspuz.config flags (module-level state) and restoring them."""
 
